@@ -419,6 +419,10 @@ pub struct Corruption {
     pub what: String,
     pub rule: &'static str,
     pub payload: Value,
+    /// how `payload` is derived from the conforming payload: (delete?, path, new value) - payloads are
+    /// only materialised for the corruptions that are kept (a large payload has thousands of positions)
+    #[doc(hidden)]
+    pub edit: Option<(bool, Vec<PathSeg>, Value)>,
     pub expect: Expect,
     /// depth of the corrupted position (root fields are depth 1)
     pub depth: usize,
@@ -490,7 +494,7 @@ fn wrong_kind_values(kind: &LeafKind) -> Vec<(&'static str, Value)> {
 }
 
 /// All single-point corruptions of a conforming payload, each with the rule it breaks.
-pub fn corruptions(root: &P, other_variant: bool, schema: &Schema) -> Vec<Corruption> {
+fn corruption_edits(root: &P, other_variant: bool, schema: &Schema) -> (Value, Vec<Corruption>) {
     let base = payload(root);
     let mut out = Vec::new();
     fn walk(
@@ -511,7 +515,8 @@ pub fn corruptions(root: &P, other_variant: bool, schema: &Schema) -> Vec<Corrup
                     path: path.clone(),
                     what: "null at a non-null position".into(),
                     rule: "null_at_nonnull",
-                    payload: replaced(base, path, Value::Null),
+                    payload: Value::Null,
+                    edit: Some((false, path.clone(), Value::Null)),
                     expect: Expect::Err,
                     depth,
                     in_variant_or_list: in_var,
@@ -521,7 +526,8 @@ pub fn corruptions(root: &P, other_variant: bool, schema: &Schema) -> Vec<Corrup
                         path: path.clone(),
                         what: "missing key at a non-null position".into(),
                         rule: "missing_at_nonnull",
-                        payload: deleted(base, path),
+                        payload: Value::Null,
+                    edit: Some((true, path.clone(), Value::Null)),
                         expect: Expect::Err,
                         depth,
                         in_variant_or_list: in_var,
@@ -540,7 +546,8 @@ pub fn corruptions(root: &P, other_variant: bool, schema: &Schema) -> Vec<Corrup
                         path: path.clone(),
                         what: what.into(),
                         rule: "wrong_scalar_kind",
-                        payload: replaced(base, path, v),
+                        payload: Value::Null,
+                    edit: Some((false, path.clone(), v)),
                         expect: Expect::Err,
                         depth,
                         in_variant_or_list: in_var,
@@ -559,7 +566,8 @@ pub fn corruptions(root: &P, other_variant: bool, schema: &Schema) -> Vec<Corrup
                         path: path.clone(),
                         what: what.into(),
                         rule: "non_list_for_list",
-                        payload: replaced(base, path, v),
+                        payload: Value::Null,
+                    edit: Some((false, path.clone(), v)),
                         expect: Expect::Err,
                         depth,
                         in_variant_or_list: in_var,
@@ -579,7 +587,8 @@ pub fn corruptions(root: &P, other_variant: bool, schema: &Schema) -> Vec<Corrup
                         path: path.clone(),
                         what: "unknown __typename".into(),
                         rule: "unknown_typename",
-                        payload: replaced(base, &tp, json!("ZzNoSuchType")),
+                        payload: Value::Null,
+                    edit: Some((false, tp.clone(), json!("ZzNoSuchType"))),
                         expect: if other_variant { Expect::OkTag("Unknown".into()) } else { Expect::Err },
                         depth: depth + 1,
                         in_variant_or_list: true,
@@ -592,7 +601,8 @@ pub fn corruptions(root: &P, other_variant: bool, schema: &Schema) -> Vec<Corrup
                                 path: path.clone(),
                                 what: format!("__typename swapped to {}", o),
                                 rule: "swapped_typename",
-                                payload: replaced(base, &tp, json!(o)),
+                                payload: Value::Null,
+                    edit: Some((false, tp.clone(), json!(o))),
                                 expect: Expect::IfOkTag(o.clone()),
                                 depth: depth + 1,
                                 in_variant_or_list: true,
@@ -609,6 +619,32 @@ pub fn corruptions(root: &P, other_variant: bool, schema: &Schema) -> Vec<Corrup
         }
     }
     walk(root, &mut Vec::new(), false, false, &base, other_variant, schema, &mut out);
+    (base, out)
+}
+
+fn materialise(base: &Value, cs: &mut [Corruption]) {
+    for c in cs.iter_mut() {
+        if let Some((del, path, v)) = c.edit.take() {
+            c.payload = if del { deleted(base, &path) } else { replaced(base, &path, v) };
+        }
+    }
+}
+
+/// All single-point corruptions of a conforming payload, each with the rule it breaks.
+pub fn corruptions(root: &P, other_variant: bool, schema: &Schema) -> Vec<Corruption> {
+    let (base, mut out) = corruption_edits(root, other_variant, schema);
+    materialise(&base, &mut out);
+    out
+}
+
+/// At most `cap` of them, chosen by the tape; only those are materialised.
+pub fn corruptions_capped(root: &P, other_variant: bool, schema: &Schema, cap: usize, t: &mut Tape) -> Vec<Corruption> {
+    let (base, mut out) = corruption_edits(root, other_variant, schema);
+    while out.len() > cap {
+        let i = t.below(out.len());
+        out.swap_remove(i);
+    }
+    materialise(&base, &mut out);
     out
 }
 
